@@ -10,7 +10,7 @@ For EVERY transition from EVERY reached state the real binary is run twice: once
 written from the property statement: splice the announced edits, drop an edit that overlaps an
 earlier accepted one, leave everything else alone, count what was accepted.
 """
-import hashlib, json, os, re, shutil, sys
+import hashlib, itertools, json, os, re, shutil, sys
 
 import vlib
 
@@ -116,6 +116,7 @@ COMMANDS_THOROUGH = COMMANDS_QUICK + [
 ]
 
 STATE_CAP = 6000          # safety only; `exhaustive` is false if it is ever hit
+MAX_GROUPS = 6            # rule groups per file whose every order is tried for the reported-order reading
 MAX_SUBSET_EDITS = 14     # enumerate maximal non-overlapping subsets only below this many edits per file
 
 # ----------------------------------------------------------------------------------------------
@@ -224,12 +225,14 @@ def show_edit(e):
 def judge(tree, name, argv, raw):
     """-> (list of (sig, details), info).  Asks for nothing beyond the statement:
     per file, observed == old with the announced edits spliced, an edit being dropped only if it overlaps
-    an earlier accepted one.  `earlier` is read (a) in reported order and (b) in document order (start
-    ascending, enclosing edit first); where the two readings accept different edits (only possible when
-    several rules report on one file: --json groups by rule in hash order) either is accepted, and a third
-    acceptance order is counted as unjudged, never as a violation."""
+    an earlier accepted one.  `earlier` is read in document order (start ascending, enclosing edit first;
+    for one rule this IS the reported order) and, failing that, in reported order, where the order of the
+    per-rule groups of --json (a hash-map order, not stable between runs) is left free.  Any other maximal
+    non-overlapping choice among edits of different rules is counted as unjudged, never as a violation.
+    Everything is computed from the SET of announced edits per rule, so the verdict does not depend on
+    the order in which threads and hash maps happen to emit the records."""
     problems = []
-    info = {"accepted": 0, "dropped": 0, "files_edited": 0, "readings_differ": 0, "matched": {}, "unjudged_order": 0,
+    info = {"accepted": 0, "dropped": 0, "files_edited": 0, "order_sensitive_file": 0, "matched": {}, "unjudged_order": 0,
             "multi_rule_file": 0, "multi_doc_file": 0, "nonascii_before_edit": 0, "crlf_file": 0, "adjacent": 0,
             "plain_records": 0, "max_edits_per_file": 0}
     kind = argv[0]
@@ -281,16 +284,20 @@ def judge(tree, name, argv, raw):
                 problems.append((f"content:file-without-announced-edit-changed:{kind}",
                                  {"file": f, "old": txt(old), "observed": txt(obs)}))
             continue
+        # canonical order of the announcement: records grouped by rule (the order of the groups in the stream is a
+        # hash-map order inside ast-grep and carries no meaning), reported order kept inside each group
+        gkeys = sorted({(e["lang"] or "", e["rule"] or "") for e in es})
+        es = [e for g in gkeys for e in es if (e["lang"] or "", e["rule"] or "") == g]
+        groups = [[i for i, e in enumerate(es) if (e["lang"] or "", e["rule"] or "") == g] for g in gkeys]
         n = len(es)
         info["max_edits_per_file"] = max(info["max_edits_per_file"], n)
-        acc_a = greedy(es, range(n))
         acc_d = greedy(es, sorted(range(n), key=lambda i: (es[i]["start"], -es[i]["end"], i)))
-        exp_a, exp_d = splice(old, es, acc_a), splice(old, es, acc_d)
-        differ = acc_a != acc_d
+        exp_d = splice(old, es, acc_d)
+        sensitive = any(overlaps(es[i], es[j]) and es[i]["rule"] != es[j]["rule"] for i in range(n) for j in range(i))
         rules = {e["rule"] for e in es}
         langs = {e["lang"] for e in es}
         info["files_edited"] += 1
-        info["readings_differ"] += differ
+        info["order_sensitive_file"] += sensitive
         info["multi_rule_file"] += len(rules) > 1
         info["multi_doc_file"] += len({es[i]["lang"] for i in acc_d}) > 1
         info["crlf_file"] += b"\r\n" in old
@@ -299,18 +306,21 @@ def judge(tree, name, argv, raw):
         info["accepted"] += len(acc_d)
         info["dropped"] += n - len(acc_d)
         statement_total += len(acc_d)
-        matched = None
-        if obs == exp_a and obs == exp_d and not differ:
-            matched, counts = "both-readings", {len(acc_a)}
-        elif obs == exp_d:
-            matched, counts = "document-order", {len(acc_d)} | ({len(acc_a)} if obs == exp_a else set())
-        elif obs == exp_a:
-            matched, counts = "reported-order", {len(acc_a)}
-        elif differ and n <= MAX_SUBSET_EDITS:
-            sizes = {len(s) for s in maximal_subsets(es) if splice(old, es, s) == obs}
-            if sizes:
-                matched, counts = "other-acceptance-order(unjudged)", sizes
-                info["unjudged_order"] += 1
+        matched, counts = None, set()
+        if obs == exp_d:
+            matched, counts = "document-order", {len(acc_d)}
+        else:
+            if len(groups) <= MAX_GROUPS:
+                for perm in itertools.permutations(groups):
+                    acc = greedy(es, [i for g in perm for i in g])
+                    if splice(old, es, acc) == obs:
+                        matched = "reported-order-only"
+                        counts.add(len(acc))
+            if not matched and sensitive and n <= MAX_SUBSET_EDITS:
+                counts = {len(s) for s in maximal_subsets(es) if splice(old, es, s) == obs}
+                if counts:
+                    matched = "other-acceptance-order(unjudged)"
+                    info["unjudged_order"] += 1
         if matched:
             info["matched"][matched] = info["matched"].get(matched, 0) + 1
             count_options = {a + b for a in count_options for b in counts}
@@ -320,8 +330,6 @@ def judge(tree, name, argv, raw):
         detail = {"file": f, "old": txt(old), "announced": [show_edit(e) for e in es],
                   "accepted_by_statement": [show_edit(es[i]) for i in acc_d],
                   "expected": txt(exp_d), "observed": txt(obs)}
-        if differ:
-            detail["expected_alt_reported_order"] = txt(exp_a)
         sig = None
         acc_langs = sorted({es[i]["lang"] or "?" for i in acc_d})
         if len(acc_langs) > 1:
@@ -433,7 +441,7 @@ def main(argv):
 
     tot = {"transitions": 0, "nontrivial": 0, "noop": 0, "self_loops": 0, "with_dropped_overlap": 0,
            "multi_rule_file": 0, "multi_doc_file": 0, "nonascii_before_edit": 0, "crlf_file": 0, "adjacent_edits": 0,
-           "readings_differ": 0, "unjudged_order": 0, "accepted_edits": 0, "dropped_edits": 0, "plain_records": 0,
+           "order_sensitive_file": 0, "unjudged_order": 0, "accepted_edits": 0, "dropped_edits": 0, "plain_records": 0,
            "max_edits_per_file": 0, "violating_transitions": 0}
     matched_tot, per_depth, per_cmd, outcomes, samples, sample_keys = {}, [], {}, set(), [], set()
     edges, capped, counter = set(), False, 0
@@ -465,7 +473,7 @@ def main(argv):
             tot["accepted_edits"] += info["accepted"]
             tot["dropped_edits"] += info["dropped"]
             tot["adjacent_edits"] += info["adjacent"] > 0
-            for k in ("multi_rule_file", "multi_doc_file", "nonascii_before_edit", "crlf_file", "readings_differ", "unjudged_order"):
+            for k in ("multi_rule_file", "multi_doc_file", "nonascii_before_edit", "crlf_file", "order_sensitive_file", "unjudged_order"):
                 tot[k] += info[k] > 0
             tot["plain_records"] += info["plain_records"]
             tot["max_edits_per_file"] = max(tot["max_edits_per_file"], info["max_edits_per_file"])
@@ -530,10 +538,11 @@ def main(argv):
     assumptions = [
         "The announcement is the same command with --json=stream instead of -U on an identical fresh copy; it is checked to leave its copy untouched.",
         "An edit = a JSON record with `replacement` and `replacementOffsets` (byte range into the file); records without them (rules without fix) are not edits.",
-        "`Earlier` in `overlaps an earlier accepted one` is read in reported order and in document order (start ascending, enclosing edit first). "
-        "When several rules fix one file --json groups records by rule in hash-map order, so the two readings can accept different edits; then either "
-        "is accepted (counts.readings_differ), and any other maximal non-overlapping choice is counted as unjudged, not as a violation. With one rule "
-        "(`run`) both readings coincide and exactly that result is required.",
+        "`Earlier` in `overlaps an earlier accepted one` is read in document order (start ascending, enclosing edit first) or in reported order. "
+        "With one rule (`run`) the two coincide and exactly that result is required. When several rules fix one file, --json groups the records by rule "
+        "and the order of the groups is a hash-map order that changes between runs, so it is left free: a result is accepted if it is the document-order "
+        "splice or the reported-order splice under some order of the groups (counts.order_sensitive_file = transitions where this matters); any other "
+        "maximal non-overlapping choice among edits of different rules is counted as unjudged, not as a violation.",
         "No `Applied N changes` line on stdout is read as N = 0 (the line is only printed for N > 0).",
         "Zero-length edits, suppression comments, interactive mode without --update-all, stdin mode and I/O failures are outside the alphabet.",
         "Hash seeds of the process are fixed by the LD_PRELOAD shim (seed 0); thread scheduling of the walker is not controlled (C17 covers it).",
